@@ -147,7 +147,10 @@ func (zc *Coordinator) mainLoop(eventChan <-chan zk.Event) {
 			switch event.State {
 			case zk.StateExpired:
 				zc.Log.Error("session expired")
+				zc.App.ZookeeperExpired.L.Lock()
 				zc.App.ZookeeperConnected = false
+				zc.App.ZookeeperExpirations++
+				zc.App.ZookeeperExpired.L.Unlock()
 				zc.App.ZookeeperExpired.Broadcast()
 			case zk.StateConnected:
 				if !zc.App.ZookeeperConnected {
